@@ -15,11 +15,12 @@ EXTENDS Integers, Sequences, FiniteSets, TLC, Json, XJudge
 CONSTANTS NReq,      \* number of requests of a scenario
           Conns,     \* downstream connections (1..k)
           MaxSteps,  \* length of the enumerated schedules
-          Defects    \* "LocalReplyKeepsOldBody" and the ones below; {} = intended design | "HijackIdFromFrame" | "NoDelete" | "ArrivalOrder" | "RecycleWhileReferenced" | "BodyAliasesReadBuffer"
+          Defects    \* "LocalReplyKeepsOldBody" and the ones below; {} = intended design | "HijackIdFromFrame" | "NoDelete" | "ArrivalOrder" | "RecycleWhileReferenced" | "BodyAliasesReadBuffer" | "DroppedResponseKeepsDecodeContext"
 
 Reqs == 1..NReq
 Fresh(r) == 1000 + r          \* the client's own id space; upstream ids count 1,2,3.. per upstream connection
 NoTok == 0
+Bare == -1                    \* body token of a message without a body
 ErrTok(r) == 100 + r          \* token (header and body) of the error answers the upstream produces for request r
 RetryBudget == 3              \* retries the proxy grants a request on a retry_on route (retrystate.go: max(3, num_retries))
 
@@ -41,15 +42,18 @@ VARIABLES
   tries,    \* r -> retries granted so far
   kept,     \* requests whose downstream stream still holds the answer of an earlier attempt
   reenc,    \* the scenario runs on a route that makes the proxy re-encode requests and responses (headers added both ways)
+  ctxb,     \* proxy: body token the decode context of the upstream connection still holds from a response that was dropped
+            \* (nobody waited for it) - the intended design starts every frame in a fresh context (ctxManager.Next), so 0
   hist
-vars == <<creq, uans, udup, tmo, uid, uep, ptab, alive, frameid, nextU, epoch, bad, stale, ghosted, closed, retry, uerr, tries, kept, reenc, hist>>
+vars == <<creq, uans, udup, tmo, uid, uep, ptab, alive, frameid, nextU, epoch, bad, stale, ghosted, closed, retry, uerr, tries, kept, reenc, ctxb, hist>>
 
-Unsent == [st |-> "unsent", conn |-> 0, dsid |-> 0, short |-> FALSE, closedSince |-> FALSE]
+Unsent == [st |-> "unsent", conn |-> 0, dsid |-> 0, short |-> FALSE, closedSince |-> FALSE, bare |-> FALSE]
+Body(cq, r) == IF cq[r].bare THEN Bare ELSE r     \* body of the answer the upstream produces for r
 
 Init == /\ creq = [r \in Reqs |-> Unsent] /\ uans = {} /\ udup = {} /\ tmo = {}
         /\ uid = [r \in Reqs |-> 0] /\ uep = [r \in Reqs |-> 0]
         /\ ptab = <<>> /\ alive = {} /\ frameid = [r \in Reqs |-> 0]
-        /\ nextU = 0 /\ epoch = 0 /\ bad = {} /\ stale = 0 /\ ghosted = FALSE /\ closed = FALSE /\ hist = <<>>
+        /\ nextU = 0 /\ epoch = 0 /\ bad = {} /\ stale = 0 /\ ghosted = FALSE /\ closed = FALSE /\ hist = <<>> /\ ctxb = 0
         /\ reenc \in BOOLEAN /\ retry \in BOOLEAN /\ ~(reenc /\ retry)
         /\ uerr = {} /\ tries = [r \in Reqs |-> 0] /\ kept = {}
 
@@ -62,22 +66,24 @@ ClientRecv3(cq, c, id, ok, htok, btok, prod, ue) ==
       d == { r \in Reqs : cq[r].st = "replied" /\ cq[r].conn = c /\ cq[r].dsid = id }
       r == CHOOSE x \in o : TRUE
       q == [tok |-> r, short |-> cq[r].short, unstable |-> FALSE, closedSince |-> cq[r].closedSince,
-            nil |-> NoTok, errs |-> IF r \in ue THEN {ErrTok(r)} ELSE {}]
-  IN [v  |-> IF o = {} THEN Verdict(FALSE, d # {}, [tok |-> 0], ok, htok, btok, prod)
+            nil |-> NoTok, errs |-> IF r \in ue THEN {ErrTok(r)} ELSE {}, body |-> Body(cq, r)]
+  IN [v  |-> IF o = {} THEN Verdict(FALSE, d # {}, [tok |-> 0, body |-> 0], ok, htok, btok, prod)
              ELSE Verdict(TRUE, FALSE, q, ok, htok, btok, prod),
       cq |-> IF o = {} THEN cq ELSE [cq EXCEPT ![r].st = "replied"]]
 ClientRecv2(cq, c, id, ok, htok, btok, prod) == ClientRecv3(cq, c, id, ok, htok, btok, prod, uerr)
 ClientRecv(cq, c, id, ok, tok, prod) == ClientRecv2(cq, c, id, ok, tok, tok, prod)
 
 (* ---- client sends request r on connection c; mode = 0: fresh id, k > 0: the id the proxy uses upstream for request k *)
-Send(r, c, mode, short) ==
+(*   bare: the upstream will answer r without a body (at most one such request per schedule) *)
+Send(r, c, mode, short, bare) ==
+  /\ bare => \A x \in Reqs : ~creq[x].bare
   /\ creq[r].st = "unsent" /\ \A x \in Reqs : x < r => creq[x].st # "unsent"
   /\ c = 1 \/ \E x \in Reqs : creq[x].conn = c - 1      \* connections are interchangeable: use them in order
   /\ mode # 0 => /\ mode \in Reqs /\ creq[mode].st = "open" /\ uid[mode] # 0
                  /\ OpenOn(c, uid[mode]) = {}
   /\ LET d == IF mode = 0 THEN Fresh(r) ELSE uid[mode]
          u == nextU + 1
-         opened == [creq EXCEPT ![r] = [Unsent EXCEPT !.st = "open", !.conn = c, !.dsid = d, !.short = short]]
+         opened == [creq EXCEPT ![r] = [Unsent EXCEPT !.st = "open", !.conn = c, !.dsid = d, !.short = short, !.bare = bare]]
          hit == stale # 0 /\ "RecycleWhileReferenced" \in Defects     \* r was given the recycled objects of the ended request
          res == ClientRecv(opened, c, d, TRUE, stale, TRUE)
      IN /\ creq' = IF hit THEN res.cq ELSE opened
@@ -88,16 +94,20 @@ Send(r, c, mode, short) ==
         /\ alive' = IF hit THEN alive ELSE alive \cup {r}
         /\ frameid' = [frameid EXCEPT ![r] = u]          \* client stream stamps the shared frame with its own id
         /\ nextU' = u
-  /\ hist' = Append(hist, [op |-> "send", r |-> r, conn |-> c, mode |-> mode, short |-> short])
-  /\ UNCHANGED <<uans, udup, tmo, epoch, ghosted, closed>>
+  /\ hist' = Append(hist, [op |-> "send", r |-> r, conn |-> c, mode |-> mode, short |-> short, bare |-> bare])
+  /\ UNCHANGED <<ctxb, uans, udup, tmo, epoch, ghosted, closed>>
 
 (* ---- a response frame with upstream id u carrying the token of request t reaches the proxy *)
 (* the proxy-side state a response touches, as a record, so that two responses can be applied in one step *)
-Cur == [creq |-> creq, ptab |-> ptab, alive |-> alive, bad |-> bad]
-Apply(S) == creq' = S.creq /\ ptab' = S.ptab /\ alive' = S.alive /\ bad' = S.bad
-Resp1(S, u, ht, bt) ==
-  IF u \notin DOMAIN S.ptab THEN S
-  ELSE LET w == IF "ArrivalOrder" \in Defects
+Cur == [creq |-> creq, ptab |-> ptab, alive |-> alive, bad |-> bad, ctxb |-> ctxb]
+Apply(S) == creq' = S.creq /\ ptab' = S.ptab /\ alive' = S.alive /\ bad' = S.bad /\ ctxb' = S.ctxb
+(* a response nobody waits for is dropped; its decode context must not be the one the next frame is decoded into:
+   bolt / boltv2 assign the content of a response only when its content length is > 0 *)
+Resp1(S, u, ht, bt0) ==
+  IF u \notin DOMAIN S.ptab
+  THEN [S EXCEPT !.ctxb = IF "DroppedResponseKeepsDecodeContext" \in Defects /\ bt0 # Bare THEN bt0 ELSE S.ctxb]
+  ELSE LET bt == IF bt0 = Bare /\ S.ctxb # 0 THEN S.ctxb ELSE bt0
+           w == IF "ArrivalOrder" \in Defects
                 THEN S.ptab[CHOOSE x \in DOMAIN S.ptab : \A y \in DOMAIN S.ptab : x <= y]
                 ELSE S.ptab[u]
            res == ClientRecv2(S.creq, S.creq[w].conn, S.creq[w].dsid, TRUE, ht, bt, TRUE)
@@ -105,20 +115,21 @@ Resp1(S, u, ht, bt) ==
        IN [ptab  |-> IF "NoDelete" \in Defects THEN S.ptab ELSE [x \in DOMAIN S.ptab \ {u} |-> S.ptab[x]],
            creq  |-> IF deliver THEN res.cq ELSE S.creq,
            bad   |-> IF deliver THEN S.bad \cup res.v ELSE S.bad,
-           alive |-> IF deliver THEN S.alive \ {w} ELSE S.alive]
-Response(u, t) == Apply(Resp1(Cur, u, t, t))
+           alive |-> IF deliver THEN S.alive \ {w} ELSE S.alive,
+           ctxb  |-> 0]
+Response(u, t, b) == Apply(Resp1(Cur, u, t, b))
 
 UpAnswer(r) ==
   /\ uid[r] # 0 /\ uep[r] = epoch /\ r \notin uans
   /\ creq[r].short => r \in tmo          \* a request with a short timeout is answered late or never
-  /\ Response(uid[r], r)
+  /\ Response(uid[r], r, Body(creq, r))
   /\ uans' = uans \cup {r}
   /\ hist' = Append(hist, [op |-> "ans", r |-> r])
   /\ UNCHANGED <<udup, tmo, uid, uep, frameid, nextU, epoch, stale, ghosted, closed>>
 
 UpDup(r) ==
   /\ uid[r] # 0 /\ uep[r] = epoch /\ r \in uans /\ r \notin udup
-  /\ Response(uid[r], r)
+  /\ Response(uid[r], r, Body(creq, r))
   /\ udup' = udup \cup {r}
   /\ hist' = Append(hist, [op |-> "dup", r |-> r])
   /\ UNCHANGED <<uans, tmo, uid, uep, frameid, nextU, epoch, stale, ghosted, closed>>
@@ -144,7 +155,7 @@ UpError(r) ==
           /\ alive' = alive \ {r} /\ uans' = uans \cup {r}
           /\ UNCHANGED <<tries, kept, nextU, uid, frameid>>
   /\ hist' = Append(hist, [op |-> "uerr", r |-> r])
-  /\ UNCHANGED <<udup, tmo, uep, epoch, stale, ghosted, closed>>
+  /\ UNCHANGED <<ctxb, udup, tmo, uep, epoch, stale, ghosted, closed>>
 
 (* ---- decode A / read B / encode A: the answer to a is decoded from the upstream connection's read buffer and handed to
    a's worker; before that worker encodes it for the downstream, the same upstream connection reads (and the proxy
@@ -154,15 +165,15 @@ Inter(a, b) ==
   /\ a # b
   /\ \A r \in {a, b} : /\ uid[r] # 0 /\ uep[r] = epoch /\ r \notin uans /\ r \in alive
                          /\ creq[r].st = "open" /\ ~creq[r].short
-  /\ LET abody == IF reenc /\ "BodyAliasesReadBuffer" \in Defects THEN b ELSE a
-     IN Apply(Resp1(Resp1(Cur, uid[b], b, b), uid[a], a, abody))
+  /\ LET abody == IF reenc /\ "BodyAliasesReadBuffer" \in Defects THEN Body(creq, b) ELSE Body(creq, a)
+     IN Apply(Resp1(Resp1(Cur, uid[b], b, Body(creq, b)), uid[a], a, abody))
   /\ uans' = uans \cup {a, b}
   /\ hist' = Append(hist, [op |-> "inter", r |-> a, b |-> b])
   /\ UNCHANGED <<udup, tmo, uid, uep, frameid, nextU, epoch, stale, ghosted, closed>>
 
 Ghost ==
   /\ ~ghosted /\ nextU > 0 /\ ghosted' = TRUE
-  /\ Response(nextU + 7, NoTok)
+  /\ Response(nextU + 7, NoTok, NoTok)
   /\ hist' = Append(hist, [op |-> "ghost"])
   /\ UNCHANGED <<uans, udup, tmo, uid, uep, frameid, nextU, epoch, stale, closed>>
 
@@ -181,7 +192,7 @@ Timeout(r) ==
   /\ ptab' = [x \in DOMAIN ptab \ {uid[r]} |-> ptab[x]]
   /\ alive' = alive \ {r}
   /\ hist' = Append(hist, [op |-> "tmo", r |-> r])
-  /\ UNCHANGED <<uans, udup, uid, uep, frameid, nextU, epoch, stale, ghosted, closed>>
+  /\ UNCHANGED <<ctxb, uans, udup, uid, uep, frameid, nextU, epoch, stale, ghosted, closed>>
 
 (* ---- the upstream answers r at the moment its timeout expires: the response has been looked up (and removed from the
    table) but its handler has not yet touched the request when the timeout ends the request with an error reply.
@@ -197,7 +208,7 @@ Race(r) ==
   /\ alive' = alive \ {r}
   /\ stale' = r
   /\ hist' = Append(hist, [op |-> "race", r |-> r])
-  /\ UNCHANGED <<udup, uid, uep, frameid, nextU, epoch, ghosted, closed>>
+  /\ UNCHANGED <<ctxb, udup, uid, uep, frameid, nextU, epoch, ghosted, closed>>
 
 (* ---- the same with the other way a request ends early: the client closes its connection while the answer to r is
    held in its handler. Every request outstanding on that connection is abandoned (no reply is owed any more). *)
@@ -210,7 +221,7 @@ RaceGone(r) ==
         /\ ptab' = [x \in DOMAIN ptab \ { uid[g] : g \in gone } |-> ptab[x]]
   /\ uans' = uans \cup {r} /\ stale' = r
   /\ hist' = Append(hist, [op |-> "racegone", r |-> r])
-  /\ UNCHANGED <<udup, tmo, uid, uep, frameid, nextU, epoch, bad, ghosted, closed>>
+  /\ UNCHANGED <<ctxb, udup, tmo, uid, uep, frameid, nextU, epoch, bad, ghosted, closed>>
 
 RECURSIVE ErrAll(_, _)
 ErrAll(cqb, S) == IF S = {} THEN cqb
@@ -227,11 +238,12 @@ UpClose ==
   /\ ptab' = <<>> /\ epoch' = epoch + 1 /\ nextU' = 0
   /\ hist' = Append(hist, [op |-> "close"])
   /\ UNCHANGED <<uans, udup, tmo, uid, uep, frameid, stale, ghosted>>
+  /\ ctxb' = 0
 
 Next == /\ Len(hist) < MaxSteps /\ reenc' = reenc /\ retry' = retry
         /\ \/ \E r \in Reqs : UpError(r)
            \/ /\ UNCHANGED <<uerr, tries, kept>>
-              /\ \/ \E r \in Reqs, c \in Conns, m \in 0..NReq, s \in BOOLEAN : Send(r, c, m, s)
+              /\ \/ \E r \in Reqs, c \in Conns, m \in 0..NReq, s, b \in BOOLEAN : Send(r, c, m, s, b)
                  \/ \E r \in Reqs : UpAnswer(r) \/ UpDup(r) \/ Timeout(r)
                  \/ \E a, b \in Reqs : Inter(a, b)
                  \/ Ghost
